@@ -37,7 +37,7 @@ struct refm {
         uint8_t cb_pending;    /* write vars: 0 need parse, 1 waiting for callback, 2 callback done; read vars: 1 waiting */
         uint8_t term;          /* terminator of the last parsed argument: 0 end, 1 comma */
         uint8_t wsize;         /* write_size the variable write callback must be told */
-        uint16_t args_off, args_len, arg_pos, line_n;
+        uint32_t args_off, args_len, arg_pos, line_n;
         uint16_t text_len;
         uint8_t text[W_TEXT];
 };
@@ -46,7 +46,7 @@ struct qent { uint8_t ev; uint8_t complete; };
 
 struct mon {
         /* input lexer */
-        uint16_t line_len;
+        uint32_t line_len;
         uint8_t line_nonblank;
         uint8_t doomed;        /* reason code: every completion of the current line is answered ERROR */
         uint8_t doom_crlf, padd[3];
